@@ -34,6 +34,7 @@ RULE = (
     "(otherwise the call is a plain conversion, outside the claim); postcondition: FeatureNotSupported. non-trivial (positive) = >= 2 spellings executed on a "
     "non-constant polynomial; (negative) = a template numpy accepts for plain arrays."
 )
+LEVEL_TEXT += (" Spellings compared also include numpy.full/ones/zeros(..., like=poly) and the axis-omitted ufunc.reduce/accumulate (axis 0).")
 ASSUMPTIONS = [
     "explicit output arguments (out=, in-place operators) are outside the compared spellings",
     "ufunc.reduce/accumulate with the axis omitted mean axis 0 (numpy's definition; sum/cumsum default to axis=None): that spelling is compared with the axis=0 call",
